@@ -57,8 +57,8 @@ CHECKS["C13"] = dict(
     design="DESIGN.md S.2 and 3 C13")
 
 CHECKS["C20"] = dict(
-    technique="Coq proof of option precedence (association-list model of get_options and of main's priority options, option table and argparse defaults regenerated from the source by tr_opts) and of header/source assembly; end-to-end run of ffcx.main.main: gcc stand-alone, nm declared-subset-of-defined, aliases, kernels vs JIT path bit for bit, option matrix over the three sources",
-    text="For every option key and all contents of the three sources: command line > $PWD file > user file > defaults (an option absent from the command line is None in argparse - checked on the regenerated table). Header = declarations, source = implementations in block order. One representative UFL file (named forms, forms list, expression, element) is compiled through the CLI and compared with the JIT kernels bit for bit.",
+    technique="Coq proof of option precedence (association-list model of get_options and of main's priority options, option table and argparse defaults regenerated from the source by tr_opts) and of header/source assembly; Coq proof that the namespace / output stem produced by main.sanitise_filename (regenerated as a pipeline of character-class substitutions by tr_opts) consists of C-identifier characters for every file name, and fixes clean names; end-to-end run of ffcx.main.main: gcc stand-alone, nm declared-subset-of-defined, aliases, kernels vs JIT path bit for bit, option matrix over the three sources",
+    text="For every option key and all contents of the three sources: command line > $PWD file > user file > defaults (an option absent from the command line is None in argparse - checked on the regenerated table). Header = declarations, source = implementations in block order. For every file name the alias prefix and output stem are identifier characters (and identifiers are kept); file names with punctuation / non-ASCII go through ffcx.main and the model and must agree, be written, declare the alias and compile. One representative UFL file (named forms, forms list, expression, element) is compiled through the CLI and compared with the JIT kernels bit for bit.",
     note="Coq kernel+VM; tr_opts.py; UFL file loader; gcc/nm/cffi; programs: one UFL file + option matrix",
     design="DESIGN.md S.2 and 3 C20")
 
